@@ -7,6 +7,9 @@ from shapes import INTS, align, ssize, min_size
 
 
 def applies(pid, t):
+    if pid == 'C17':
+        import shapes
+        return t[0] in ('vec', 'str', 'flex') and shapes.declared_portable(t)
     if pid == 'C11':
         return t[0] in ('vec', 'str')
     if pid == 'C12':
@@ -276,5 +279,6 @@ PROJECTION = {
     'C13': ['res', 'val', 'view', 'size', 'buf'],
     'C14': ['buf'],
     'C05': ['size', 'tv'],
+    'C17': ['res', 'buf', 'size', 'view'],
 }
-ORACLES = {'C11': c11, 'C12': c12, 'C13': c13, 'C14': c14, 'C05': c05}
+ORACLES = {'C11': c11, 'C12': c12, 'C13': c13, 'C14': c14, 'C05': c05, 'C17': lambda t, md, steps, flags: []}
